@@ -286,6 +286,10 @@ func (g *gen) block(depth int) string {
 		}
 		b.WriteString("</div>")
 		return b.String()
+	case k == 19 && g.noGrid && r.P(1, 3):
+		// KF15-4: a language tag that is no key of text.langQuotes but has two keys as prefixes
+		g.feat["lang-quotes"] = true
+		return `<p lang="` + rng.Pick(r, "fr_CHx", "kabyle", "fr_CA-x") + `"><q>` + text(r, 2) + ` <q>` + text(r, 1) + `</q></q></p>`
 	case k == 18 && g.oofOK():
 		g.feat["longfloat"] = true // a float taller than the page: brokenOutOfFlow
 		return `<div style="float:` + rng.Pick(r, "left", "right") + `;width:` + px(r, 60, 160) + `"` + g.idAttr() + ">" + text(r, r.Range(30, 110)) + "</div>"
